@@ -153,6 +153,18 @@ def _judge_state(zdir, day, original: dict, prev: dict | None, step_no: int):
     extra = sorted(set(files) - set(original))
     if extra:
         return ("unexpected-new-file", {"files": extra})
+    # (v) file_hash.json: exactly the pages on disk, each with the SHA-256 of its current bytes
+    import hashlib
+
+    hp = zdir / ".zorg" / "file_hash.json"
+    try:
+        hm = json.loads(hp.read_text())
+    except Exception as e:  # noqa: BLE001
+        return ("hash-map-unreadable", {"error": str(e)})
+    want_hm = {rel: hashlib.sha256((zdir / rel).read_bytes()).hexdigest() for rel in files if rel.endswith(".zo")}
+    if hm != want_hm:
+        return ("hash-map-not-current", {"expected_pages": sorted(want_hm), "recorded_pages": sorted(hm),
+                                         "stale": sorted(k for k in hm if want_hm.get(k) != hm[k])})
     # (iv) from the second step on nothing changes
     if prev is not None:
         if prev["files"] != files:
@@ -266,7 +278,8 @@ def run(ctx: F.Ctx):
             "suffixes sit right before every carry and every skip over excluded characters. Histories over {create, reindex} (quick: c, cc, cr; thorough adds crr, "
             "ccr, crc), same day and with the day advancing between steps. Every transition runs "
             "the real CLI in a fresh process; state = files + raw index + meta stores. Invariants "
-            "(i)-(iv) of the design in every state."
+            "(i)-(iv) of the design in every state, plus (v) file_hash.json lists exactly the pages on "
+            "disk with their current SHA-256."
         ),
         "bounds": {"histories": len(cases), "variants": len(variant_items()), "frozen_day": day.isoformat()},
         "assumptions": ["ZID-less items with a hand-written modify date are excluded (modify dates are machine-written, in front of a ZID)"],
